@@ -47,6 +47,10 @@ def monitor(case, obs):
         if ev[0] == "api" and ev[1] == "replace": in_replace += 1
         if ev[0] == "api<" and ev[1] == "replace": in_replace = max(0, in_replace - 1)
         if ev[0] == "cb<" and ev[2] == "setup" and len(ev) > 3 and not ev[3]: setup_top.pop(ev[1], None)      # a failed setup: that entry is discarded, not refreshed
+        if ev[0] == "cb<" and ev[2] == "refresh" and last_refresh.get(ev[1]):
+            # the stack changed during this refresh() (the processed entry is not the top any more): the scheduler gives this activation up - no draw belongs to it
+            lr_ = last_refresh[ev[1]][-1]
+            if lr_[2] != "?" and ctx.get("top", "?") != "?" and lr_[2] != ctx["top"]: last_refresh[ev[1]].pop()
         if ev[0] == "cb":
             scr, cb = ev[1], ev[2]
             name = x.specs[scr]["name"]
